@@ -12,6 +12,8 @@ EXTENDS GrammarCases
 VARIABLES cs, toks
 TT == INSTANCE TokenTable
 G == INSTANCE Grammar
+ST == INSTANCE SyntaxTree
+AP == INSTANCE AstProj WITH MC <- TT!ModelChars
 
 RECURSIVE TextOf(_, _, _)
 (* render(toks, 0): tokens separated by one blank; "\n" tokens are line ends and take no blank around them *)
@@ -33,9 +35,35 @@ GSpec == GInit /\ x = 0 /\ [][GNext]_<<cs, toks, x, picked>>
 (* known deviation (known finding C04: an assignment whose right-hand side is a binary expression is a syntax error) *)
 Dev_AssignBinaryRhs == cs.fam \in {"pairL@assign", "bin@assign"} \/ cs.sig = "stmt:assign:binary-rhs"
 ErrorEvents(p) == SelectSeq(p.ev, LAMBDA e : e.tag = "error")
+(* the non-trivia raw tokens of the case's text, with their characters *)
+NTokens(txt) == LET tab == TT!Table(txt)
+                    nt == SelectSeq(tab, LAMBDA r : ~TT!IsTriviaKind(r.kind))
+                IN [i \in 1..Len(nt) |-> [kind |-> nt[i].kind, txt |-> SubSeq(txt, nt[i].st, nt[i].st + nt[i].n - 1)]]
+(* the validation pass (validation.rs) on the tree the builder makes from the model's events *)
+ValidationOK(p) == LET txt == TextOf(cs.toks, 1, <<>>)
+                       root == ST!TreeOf(G!Process(p.ev, 1, {}), NTokens(txt))
+                   IN ST!ValidationErrors(root) = <<>>
+(* C05 on the model, for the expression families: the typed-AST projection of the parsed expression is the abstract expression *)
+(* the case was printed from (operator precedence and associativity, unary / postfix / cast / index / call nesting)             *)
+ExprFams == { cc.fam : cc \in ExprCases }
+C05e_Holds(p) ==
+  LET txt == TextOf(cs.toks, 1, <<>>)
+      root == ST!TreeOf(G!Process(p.ev, 1, {}), NTokens(txt))
+      stmts == SelectSeq(root.ch, LAMBDA nd : nd.k # "tok")
+      s1 == cs.sk[1]
+      node == stmts[1]
+      xs == AP!ChildrenIn(node, AP!ExprKinds)
+  IN /\ Len(stmts) = 1
+     /\ CASE s1.k = "decl" -> node.k = "CLASSICAL_DECLARATION_STATEMENT" /\ Len(xs) >= 1 /\ AP!MatchE(xs[1], s1.init)
+          [] s1.k = "exprstmt" -> node.k = "EXPR_STMT" /\ Len(xs) >= 1 /\ AP!MatchE(xs[1], s1.e)
+          [] s1.k = "if" -> node.k = "IF_STMT" /\ Len(xs) >= 1 /\ AP!MatchE(xs[1], s1.c)
+          [] s1.k = "assign" -> node.k = "ASSIGNMENT_STMT" /\ Len(xs) >= 2 /\ AP!MatchE(xs[1], s1.lhs) /\ AP!MatchE(xs[2], s1.rhs)
+          [] OTHER -> TRUE
+C05e_Model == (picked /\ cs.fam \in ExprFams /\ Len(cs.sk) = 1 /\ ~Dev_AssignBinaryRhs) => C05e_Holds(G!Parsed)
+
 C04_Model == picked =>
   LET p == G!Parsed IN
     /\ TT!LexErrors(TextOf(cs.toks, 1, <<>>)) = <<>>
     /\ G!ReturnsNormally(p) /\ G!ConsumesAll(p) /\ G!MarkersDischarged(p)
-    /\ (Dev_AssignBinaryRhs \/ ErrorEvents(p) = <<>>)
+    /\ (Dev_AssignBinaryRhs \/ (ErrorEvents(p) = <<>> /\ ValidationOK(p)))
 =============================================================================
